@@ -47,7 +47,7 @@ class C01(Prop):
         rng = random.Random(1)
         full = {"clock": "datetime", "step": 10, "n_steps": 4, "pop": 12, "seed": 7, "crn_keys": 2, "map_size": 10000,
                 "births": [2, 0, 1], "mort": {"mods": 1}, "disease": {"states": 3, "p": [5, 8], "self": True},
-                "stepmod": {"every": 3, "mult": 2}, "obs": {"strats": 3, "concat": True}}
+                "stepmod": {"every": 3, "mult": 2}, "obs": {"strats": 3, "concat": True, "values": 5}}
         vary = dict(full, step=1, n_steps=9, pop=6, births=[1, 0], disease=None, obs=None, stepmod={"every": 2, "mult": 3, "vary": True})
         # the last step taken is longer than the step the clock has afterwards (found with VERIF_SEED=3: F21, second commit)
         shrink = {"clock": "datetime", "step": 0.5, "n_steps": 7, "pop": 1, "seed": 9015, "crn_keys": 0, "map_size": 100003,
